@@ -98,6 +98,19 @@ theorem setLastErr_shape (c : Conn) (e : Err) : ∃ l, setLastErr c e = { c with
   · exact ⟨c.lastErr, rfl⟩
   · exact ⟨_, rfl⟩
 
+/-- `skipHeaders` touches the decoder and the header block in progress, nothing else -/
+theorem skipHeaders_shape (c : Conn) (f : Frame.Frame) :
+    ∃ d b e, skipHeaders c f = { c with dec := d, hdrBlock := b, hdrEndStream := e } := by
+  unfold skipHeaders
+  split
+  · simp only; split
+    · exact ⟨_, _, _, rfl⟩
+    · exact ⟨c.dec, _, c.hdrEndStream, rfl⟩
+  · simp only; split
+    · exact ⟨_, _, _, rfl⟩
+    · exact ⟨c.dec, _, c.hdrEndStream, rfl⟩
+  · exact ⟨c.dec, c.hdrBlock, c.hdrEndStream, rfl⟩
+
 theorem sendPending_shape (fuel : Nat) : ∀ (c : Conn) (sid : Nat),
     ∃ p w q, (sendPending fuel c sid).1 = { c with pending := p, connWindow := w, outQ := q } := by
   induction fuel with
